@@ -69,7 +69,8 @@ STATE_CAP = 20000
 def bounds(tier):
     if tier == "quick":
         return {"k_full_alphabet": 2, "k_mid_alphabet": 3, "atoms": len(ATOMS), "mid_atoms": len(MID_ATOMS),
-                "conds": len(CONDS), "inputs": 2, "per_program_state_cap": STATE_CAP}
+                "conds": len(CONDS), "inputs": 2, "per_program_state_cap": STATE_CAP,
+                "control_skeletons": "all bodies with 4-5 items over 3 atoms x 2 conditions"}
     return {"k_full_alphabet": 3, "k_mid_alphabet": 4, "atoms": len(ATOMS), "mid_atoms_k4": 14,
             "conds": len(CONDS), "inputs": 2, "per_program_state_cap": STATE_CAP}
 
@@ -91,7 +92,7 @@ def expand(shape):
 def shards(tier, seed):
     out = []
     nsh = 64 if tier == "quick" else 256
-    plan = [("full", 2), ("mid", 3)] if tier == "quick" else [("full", 3), ("core4", 4)]
+    plan = [("full", 2), ("mid", 3), ("ctl3", 5)] if tier == "quick" else [("full", 3), ("core4", 4), ("ctl4", 5)]
     for space, k in plan:
         for r in range(nsh):
             out.append({"space": space, "k": k, "mod": nsh, "rem": r})
@@ -99,9 +100,14 @@ def shards(tier, seed):
 
 
 def space_iter(space, k):
-    atoms = {"full": list(ATOMS), "mid": MID_ATOMS, "core4": CORE4}[space]
+    atoms = {"full": list(ATOMS), "mid": MID_ATOMS, "core4": CORE4,
+             "ctl3": ["a+=1", "b=2a", "yield a"], "ctl4": ["a+=1", "b=2a", "yield a", "fail"]}[space]
     conds = list(CONDS) if space == "full" else MID_CONDS
-    for kk in range(1, k + 1):
+    lo = 1
+    if space.startswith("ctl"):
+        conds = ["s:a>1", "e3:y==0"]
+        lo = 4
+    for kk in range(lo, k + 1):
         yield from c01.gen_bodies(kk, atoms, conds)
 
 
